@@ -153,6 +153,12 @@ def c14 (args res : List String) : Verdict :=
                 | 'q' => (s, "")     -- a block request handled by the manager: the choke/interest state is not its business
                 | _ => (s, "?")
               let model := pre ++ snapTok s'
+              -- "each regular slot belongs to a peer that declared interest … peers that lost interest are choked": the
+              -- interest the manager has on record must be the peer's last declaration (Interested / NotInterested)
+              let interestBad := implSnap.any fun p => match s'.find? (·.addr = p.addr) with
+                | some q => q.interested != p.interested
+                | none => false
+              if interestBad then fail (vProp "T2-interest-on-record-differs-from-the-peers-last-declaration" s!"op-{c}") else
               if c = 'b' ∧ (out.startsWith "B[u]") ≠ (pre = "B[u]") ∧ snapTok s' = snapStr then
                 fail (vProp "T3-unchoke-frame-does-not-match-state-change" "bitfield")
               else if model ≠ out then fail (vDiff s!"op-{c}" model s!"op-{c}")
